@@ -88,6 +88,27 @@ Theorem C16_tree_lines : forall table dflt rend a style g trepr f ti,
 Proof. exact tree_format_lines. Qed.
 Print Assumptions C16_tree_lines.
 
+(* Node.format_iter called on the system root (tree.system_root): the system
+   root is never a line; its children carry a connector iff add_self; in list
+   style the renderings only (this is the repaired D35) *)
+Theorem C16_system_root_lines : forall table dflt rend a f add_self,
+  (forall style g, is_list_style a = false ->
+     resolve_style table dflt a = Ok style -> unpack style = Some g ->
+     format_iter table dflt rend f SRoot a add_self
+       = Ok (zip_lines rend (rel_prefixes g add_self f) (pre_f f))
+     /\ length (rel_prefixes g add_self f) = length (pre_f f)
+     /\ (style_okb g = true -> decode_shape g (rel_prefixes g add_self f) = shape_f f))
+  /\ (is_list_style a = true -> format_iter table dflt rend f SRoot a add_self = Ok (map rend (pre_f f))).
+Proof.
+  exact (fun table dflt rend a f add_self => conj
+    (fun style g NL R U =>
+       match root_format_lines table dflt rend a style g f add_self NL R U with
+       | conj E Len => conj E (conj Len (decode_rel g add_self f))
+       end)
+    (root_list_style_lines table dflt rend a f add_self)).
+Qed.
+Print Assumptions C16_system_root_lines.
+
 (* the prefix of one node, exactly: a function of (relative depth, relative
    ancestors' last-flags, own last-flag, has-children) *)
 Theorem C16_prefix_of_context : forall g top c,
@@ -239,6 +260,21 @@ Proof.
     (conj (decode_anc_pfx g top c OK D) (conj (decode_last_pfx g top c OK D) (decode_hc_pfx g top c OK D))))).
 Qed.
 Print Assumptions C16_flags_from_prefix.
+
+(* all nodes at once, when the roots of the branch carry a connector
+   (Tree.format with a title; the descendants of a start node): the prefixes
+   give depth, ancestors' flags, own flag - and has-children where the style
+   distinguishes it - of every node, in pre-order *)
+Theorem C16_all_flags_from_prefixes : forall g roots,
+  style_okb g = true ->
+  (anc_distinct g = true -> last_distinct g = true ->
+   map (fun p => (decode_depth g p, decode_anc g p, dec_last g (own_part g p))) (rel_prefixes g true roots)
+   = map (fun c => (S (length (n_anc c)), map Some (n_anc c), Some (n_last c))) (ctxs_l [] roots))
+  /\ (hc_distinct g = true ->
+      map (fun p => dec_hc g (own_part g p)) (rel_prefixes g true roots)
+      = map (fun c => Some (has_ch (n_node c))) (ctxs_l [] roots)).
+Proof. exact (fun g roots OK => conj (flags_decode_all g roots OK) (hc_decode_all g roots OK)). Qed.
+Print Assumptions C16_all_flags_from_prefixes.
 
 (* ================================================================== *)
 (* 3. Obligations on the GENERATED style table (finite: vm_compute)     *)
